@@ -147,6 +147,23 @@ HOSTS_QUICK = [("maximum", "int"), ("type", "int"), ("items_tuple", "arr_int"), 
                ("uniqueItems", "arr_int"), ("if_then_else", "int"), ("extends_d3", "int"), ("minLength", "str"), ("not", "int")]
 
 
+# a foreign keyword next to the keyword it modifies or replaces in its own specification (where a leak would be most natural)
+RELATED = {
+    "minContains": [("contains", "arr_int"), ("g_array_contains", "arr_int")], "maxContains": [("contains", "arr_int")],
+    "dependentRequired": [("dependencies_array", "obj_int"), ("required", "obj_int")], "dependentSchemas": [("dependencies_schema", "obj_int")],
+    "unevaluatedItems": [("items_tuple", "arr_int"), ("items_tuple_addl_bool", "arr_int")],
+    "unevaluatedProperties": [("additionalProperties_bool", "obj_int"), ("properties", "obj_int")],
+    "prefixItems": [("items_schema", "arr_int"), ("items_tuple", "arr_int")], "$defs": [("maximum", "int")],
+    "divisibleBy": [("multipleOf", "int")], "multipleOf": [("multipleOf", "int")], "extends": [("allOf", "int")],
+    "disallow": [("not", "int"), ("type", "int")], "const": [("enum", "int")], "contains": [("items_schema", "arr_int")],
+    "propertyNames": [("properties", "obj_int"), ("patternProperties", "obj_int")], "if": [("anyOf", "int")], "then": [("anyOf", "int")],
+    "else": [("anyOf", "int")], "allOf": [("extends_d3", "int")], "anyOf": [("type_schema_d3", "int")], "not": [("disallow_d3", "int")],
+    "oneOf": [("extends_d3", "int")], "minProperties": [("properties", "obj_int")], "maxProperties": [("properties", "obj_int")],
+    "required": [("properties", "obj_int")], "examples": [("enum", "int")], "exclusiveMinimum": [("minimum", "int")],
+    "exclusiveMaximum": [("maximum", "int")], "$recursiveRef": [("maximum", "int")], "definitions": [("maximum", "int")],
+}
+
+
 def conditions(tier, seed, active):
     out = []
     rng = random.Random(seed)
@@ -172,6 +189,12 @@ def conditions(tier, seed, active):
                     h, k = rng.choice([hk for hk in hosts if hk[1] == "int"])
                     vk = rng.choice(VALUE_KINDS_QUICK if quick else VALUE_KINDS)
                     c("%s/%s=%s/%s/d%d" % (pos, name, vk, h, d), "foreign", dict(d=d, host=h, kind=k, name=name, vkind=vk, position=pos, L=1, NV=nv))
+        for name in names:
+            for h, k in RELATED.get(name, []):
+                if d not in tp.BY_NAME[h].drafts or name in tp.top_keys(h, d):
+                    continue
+                for vk in (("int", "bool", "obj_int") if quick else VALUE_KINDS):
+                    c("related/%s=%s/%s/d%d" % (name, vk, h, d), "foreign", dict(d=d, host=h, kind=k, name=name, vkind=vk, NV=nv))
         # next to $ref: any keyword of the draft itself as well
         # (Draft 3 `required` next to $ref inside `properties` is read lexically by the parent: excluded by the property)
         own = sorted(VOCAB[d] - {"$ref", "definitions", "id", "$id", "$schema"} - ({"required"} if d == 3 else set()))
